@@ -1,8 +1,25 @@
 #!/bin/sh
-# resolve the standard union conflicts after `git merge <branch>` (shared one-liner files)
+# resolve the standard conflicts after `git merge <branch>` (shared one-liner files). Sub-agent branches add a CHECKS["Cnn"] = dict(...)
+# entry (or a dict item) to tools/manifest.py: it is converted to tools/checks/Cnn.json and manifest.py is restored to ours.
 set -e
 b="$1"
-/venv/bin/python tools/resolve_union.py lean/Driver.lean lean/SqlLineage.lean tools/manifest.py 2>/dev/null || true
+/venv/bin/python tools/resolve_union.py lean/Driver.lean lean/SqlLineage.lean 2>/dev/null || true
+# their manifest.py: evaluate its CHECKS table and export new entries
+git show "$b":tools/manifest.py > /tmp/manifest_theirs.py
+git checkout --ours tools/manifest.py 2>/dev/null || git show HEAD:tools/manifest.py > tools/manifest.py
+/venv/bin/python - <<'PY'
+import json, os
+src=open('/tmp/manifest_theirs.py').read().split("def main():")[0]
+ns={'__file__':os.path.abspath('tools/manifest.py')}
+try:
+    exec(src, ns)
+    for k,v in ns.get('CHECKS',{}).items():
+        p=f'tools/checks/{k}.json'
+        if not os.path.exists(p):
+            json.dump(v,open(p,'w'),indent=1); print("exported",k)
+except Exception as e:
+    print("could not evaluate their manifest.py:", e)
+PY
 git show HEAD:known_findings.json > /tmp/kf_ours.json
 git show "$b":known_findings.json > /tmp/kf_theirs.json
 /venv/bin/python - <<'PY'
@@ -13,5 +30,15 @@ for e in b['entries']:
     if (e['id'],e['property']) not in ids: a['entries'].append(e)
 json.dump(a,open('known_findings.json','w'),indent=1)
 PY
-rm -f /tmp/kf_ours.json /tmp/kf_theirs.json
+rm -f /tmp/kf_ours.json /tmp/kf_theirs.json /tmp/manifest_theirs.py
+/venv/bin/python tools/manifest.py
+# strip inline CHECKS["Cnn"] = dict(...) blocks that git auto-merged into manifest.py (entries live in tools/checks/*.json)
+/venv/bin/python - <<'PY'
+p='tools/manifest.py'
+s=open(p).read()
+if 'CHECKS["' in s:
+    head=s[:s.index('            CHECKS[_f[:-5]] = json.load(_fh)')+len('            CHECKS[_f[:-5]] = json.load(_fh)')]
+    tail=s[s.index('NOT_YET ='):]
+    open(p,'w').write(head+"\n\n"+tail)
+PY
 /venv/bin/python tools/manifest.py
